@@ -7,7 +7,7 @@ MUTANTS = [
      "edits": [(P, "        elif result.success:\n            await self._conn.message_broker.ack(key)\n        # nack\n        else:\n            await self._conn.message_broker.nack(key)",
                    "        elif not result.success:\n            await self._conn.message_broker.ack(key)\n        # nack\n        else:\n            await self._conn.message_broker.nack(key)")]},
     {"name": "c02-drop-reporting-done-return", "checks": ["C02"],
-     "edits": [(P, "            self._processed += 1\n            return\n", "            self._processed += 1\n")]},
+     "edits": [(P, "                self._processed += 1\n                return\n", "                self._processed += 1\n")]},
     {"name": "c02-noaction-as-failure", "checks": ["C02"],
      "edits": [(P, "                reporting_done=True,", "                reporting_done=False,")]},
 ]
@@ -32,8 +32,9 @@ MUTANTS += [
                (R, "            if self._tasks_started >= self.max_tasks:\n                # the limit was reached", "            if self._tasks_started > self.max_tasks:\n                # the limit was reached")]},
     {"name": "c10-stop-event-never-set", "checks": ["C10"],
      "edits": [(R, "        if self.max_tasks_hit:\n            self.stop_consume_event.set()", "        if self.max_tasks_hit:\n            pass")]},
-    {"name": "c10-no-handback-on-cancel", "checks": ["C10", "C03"],
-     "edits": [(R, "                # consumption was stopped while this message waited for a free slot: hand it back\n                await self._hand_back(key)\n                raise", "                raise")]},
+    # (removed: "c10-no-handback-on-cancel" - dropping the runner's hand-back of a message that waited for a slot became
+    #  behaviour-preserving once every consumer's finish() returns its unsettled messages (D2/D3, D22c, D25): the message is
+    #  back in its queue, counter unchanged, when run() returns either way)
 ]
 MUTANTS += [
     {"name": "c09-release-twice", "checks": ["C09"],
@@ -111,7 +112,7 @@ MUTANTS += [
      "edits": [(RC, "            await pipe.watch(full_queue_name)\n", ""), (RC, "            pipe.multi()\n", "")]},
     {"name": "c14-mem-finish-returns-all", "checks": ["C14", "C01"],
      "edits": [(MC, "            if taken is not None and taken[2] is self:", "            if True:")]},
-    {"name": "c14-redis-processing-score-floor", "checks": ["C14"],
+    {"name": "c14-redis-processing-score-floor", "checks": ["C14", "C03"],
      "edits": [(RC, "{msg_short_name: str(time.time())}", "{msg_short_name: str(unix_time())}")]},
     {"name": "c14-amqp-finish-ignores-tag", "checks": ["C14", "C01"],
      "edits": [(AC, "            if self.broker._id_to_delivery_tag.get(id_) == tag:\n                del self.broker._id_to_delivery_tag[id_]\n                rejects.append(self.broker._channel.basic_reject(tag))",
